@@ -5459,3 +5459,41 @@ func c17r17(c *Ctx, r *Report) {
 	}
 	r.floor("calls of the shell-words parser", n, 1)
 }
+
+// c17r18: strconv.ParseFloat accepts "NaN" and "Inf". Every comparison with NaN is false, so a NaN passes
+// the range checks `val < 0` / `val > max` that follow; a number parsed from an option therefore has to be
+// screened with math.IsNaN before it is returned (D49: `--height NaN%`, `--margin nan%`, `--padding NaN%` were
+// accepted and became garbage sizes).
+func c17r18(c *Ctx, r *Report) {
+	l := c.L
+	r.rule("C17-R18", "B (every parsed float is screened for NaN)", "P1",
+		"in package fzf, every function that calls strconv.ParseFloat passes the parsed value to math.IsNaN before returning it",
+		"a percentage option given as NaN% is accepted although it is outside the documented domain")
+	n := 0
+	for _, fn := range l.AllFuncs() {
+		if fn.Blocks == nil || fn.Pkg != l.pkg("fzf") {
+			continue
+		}
+		eachInstr(fn, func(in ssa.Instruction) {
+			call, ok := in.(*ssa.Call)
+			if !ok || calleeName(call.Common()) != "strconv.ParseFloat" {
+				return
+			}
+			n++
+			screened := false
+			eachInstr(fn, func(i2 ssa.Instruction) {
+				c2, ok := i2.(*ssa.Call)
+				if !ok || calleeName(c2.Common()) != "math.IsNaN" {
+					return
+				}
+				for w := range backwardSlice(c2.Call.Args[0], nil, nil) {
+					if ex, ok := w.(*ssa.Extract); ok && ex.Tuple == ssa.Value(call) {
+						screened = true
+					}
+				}
+			})
+			r.check(screened, fmt.Sprintf("%s:float parse #%d rejects NaN", relName(fn), n), call.Pos(), fn, "math.IsNaN is applied to the parsed value", "a NaN passes every later range comparison")
+		})
+	}
+	r.floor("calls of strconv.ParseFloat", n, 1)
+}
